@@ -24,6 +24,10 @@ func init() {
 	register("C01", streamPrinterWF, streamCompose)
 	register("C03", streamPrinterWF)
 	register("C11", streamTotality, streamPrinterWF)
+	register("PM", streamPrinterModel)
+	for _, p := range []string{"C01", "C02", "C04", "C05", "C06", "C08", "C11", "C15", "C16", "C17"} {
+		register(p, streamPrinterModel)
+	}
 	register("C02", streamNI)
 	register("C04", streamFidelity)
 	register("C05", streamEnvelopes)
